@@ -4104,7 +4104,13 @@ func (a *Association) sendPayloadData(ctx context.Context, chunks []*chunkPayloa
 			a.lock.Unlock()
 			select {
 			case <-ctx.Done():
-				return ctx.Err()
+				if err := ctx.Err(); err != nil {
+					return err
+				}
+
+				// The write deadline has been changed since it fired: nothing was
+				// queued, so this call must not report success.
+				return context.DeadlineExceeded
 			case <-writeNotify:
 			}
 			a.lock.Lock()
